@@ -73,12 +73,14 @@ def run_case(case):
                 relayouts += 1
                 sc.after_step("relayout %s" % layout)
             before = sc.notes_digest()
-            op = rng.choice(["commit", "commit", "partial", "amend", "rebase", "rebase-dr", "cherry", "cherry-cc", "squash", "ci"])
+            op = rng.choice(["commit", "commit", "partial", "amend", "rebase", "rebase-dr", "cherry", "cherry-cc", "squash", "ci", "stash"])
             where = "op %d %s after %s" % (k, op, layout)
             if op == "commit":
                 sc.do_edit(); sc.commit_all("c")
             elif op == "partial":
                 sc.do_edit(); sc.do_edit(); sc.op_hunk_commit(); sc.commit_all("rest")
+            elif op == "stash":
+                sc.do_edit(author=rng.choice(sc.sessions)); sc.op_stash(); sc.commit_all("after-stash")
             elif op == "amend":
                 sc.do_edit(author=rng.choice(sc.sessions), kinds=["ins", "rep"]); sc.commit_all("to-amend")
                 sc.do_edit(author=rng.choice(sc.sessions), kinds=["ins", "rep"]); sc.op_amend()
